@@ -173,7 +173,8 @@ class ThriftMuxMessageSerializerSink(ClientMessageSink):
       A tuple of (message_type, tag)
     """
     header, = unpack('!i', stream.read(4))
-    msg_type = (256 - (header >> 24 & 0xff)) * -1
+    # The type is the signed top byte of the header.
+    msg_type = header >> 24
     tag = ((header << 8) & 0xFFFFFFFF) >> 8
     return msg_type, tag
 
